@@ -76,6 +76,10 @@ def build_xml(scn):
   if scal:
     coefs = " ".join(f'<joint joint="{j}" coef="{1.0 - 0.6 * n:.2f}"/>' for n, j in enumerate(scal[:2]))
     sections += f'<tendon><fixed name="tarm" armature="0.3" damping="0.05">{coefs}</fixed></tendon>'
+    # sensors that ACCUMULATE into their sensordata slot (one contribution per actuator) instead of overwriting it: two actuators on
+    # the tendon, no touch sensor in the model -- sensordata must be reset by every pipeline call
+    sections = sections.replace("</actuator>", '<motor name="at1" tendon="tarm" gear="0.7"/><general name="at2" tendon="tarm" gear="-0.4" biastype="affine" biasprm="0.2 -0.3 0"/></actuator>')
+    sections = sections.replace("</sensor>", f'<tendonactuatorfrc tendon="tarm"/><jointactuatorfrc joint="{scal[0]}"/></sensor>')
   floor = '<geom name="floor" type="plane" size="3 3 .1" pos="0 0 -0.12" margin="0.05"/>'
   return space.tree_xml(
     scn["parents"],
